@@ -73,6 +73,20 @@ def attr_value_term(val):
         return ('const', T.lit_value(val['s']))
     if val['t'] == 'leaf':
         return val['term']
+    if val['t'] == 'choice':
+        # a hole whose value is chosen under conditions (e.g. what is left of `opt?`): the join of the alternatives
+        alts = []
+        for c_, seq_ in val['alts']:
+            if not seq_:
+                continue
+            if len(seq_) != 1:
+                return ('unknown', 'attr-value')
+            t_ = attr_value_term(seq_[0])
+            if t_ is None or t_[0] == 'unknown':
+                return ('unknown', 'attr-value')
+            alts.append(t_)
+        if alts:
+            return P.join(alts)
     return ('unknown', 'attr-value')
 
 
@@ -285,10 +299,30 @@ def _wire_check(ctx, dd, what, owner_sig, name_el, attrs, conds, site, roles_fou
                        'for names where the two strings differ the wire key silently becomes the Rust identifier'))
 
 
+def _const_cond(c):
+    """truth value of a condition term that is decided by constants alone (None if it is not)"""
+    if not isinstance(c, tuple) or not c:
+        return None
+    if c[0] == 'const' and isinstance(c[1], bool):
+        return c[1]
+    if c[0] == 'op' and c[1] in ('is_some', 'is_none') and len(c[2]) == 1:
+        x = c[2][0]
+        if x == ('none',):
+            return c[1] == 'is_none'
+        if x[0] in ('const', 'fmt', 'xf', 'tmpl', 'agg', 'list'):
+            return c[1] == 'is_some'
+    if c[0] == 'op' and c[1] == '!' and len(c[2]) == 1:
+        v = _const_cond(c[2][0])
+        return None if v is None else (not v)
+    return None
+
+
 def _attr_live(a):
     for c in getattr(a, 'rconds', a.conds):
-        if c[0] == 'if' and c[1] == ('const', not c[2]):
-            return False
+        if c[0] == 'if':
+            v = _const_cond(c[1])
+            if v is not None and v != c[2]:
+                return False
     return True
 
 
@@ -515,11 +549,24 @@ def rule_attr_precision(ctx):
 # ------------------------------------------------------------------------------------------------
 
 def _id_preserving(t):
+    """does the name term t spell the built-in `ID` as "ID" under every normalization?  Decided by evaluating t on the
+    sample name (rules_hir7.NameEval); the shape reading below is the fallback when t is not evaluable."""
+    from .rules_hir7 import NameEval, UNK
+    got = set()
+    for norm in ('None', 'Rust'):
+        r = NameEval('*', 'ID', norm).ev(t)
+        if UNK in r or any(isinstance(v, str) and v.startswith('\0') for v in r):
+            return _id_preserving_shape(t)
+        got |= r
+    return got <= {'ID'}
+
+
+def _id_preserving_shape(t):
     """is every alternative of t either a raw name or the result of a normalizer guarded by `name == "ID"` returning
     the raw name?  (shape: if(..=="ID".. ? raw : normalized))"""
     tag = t[0]
     if tag == 'join':
-        return all(_id_preserving(x) for x in t[1])
+        return all(_id_preserving_shape(x) for x in t[1])
     if tag in ('field', 'const', 'cproj', 'tproj', 'sel', 'absent', 'none', 'unit', 'rec', 'diverge'):
         return True
     if tag == 'if':
@@ -546,6 +593,11 @@ def _norm_id_fixed(ctx):
         env = {}
         ctx.pv.bind_params(f, f.params, [('param', f.key, 0, 'self'), x], env, 0)
         t = ctx.pv.eval(f, f.body, env, 0)
+        from .rules_hir7 import NameEval, UNK
+        rs = [NameEval('*', 'ID', norm).ev(t) for norm in ('None', 'Rust')]
+        if all(r == {'ID'} for r in rs):
+            okc = True
+            continue
         for conds, leaf in P.leaves(t):
             if leaf == x and any(c[0] == 'if' and c[2] and ('const', 'ID') in list(P.subterms(c[1])) for c in conds):
                 okc = True
@@ -915,8 +967,16 @@ def rule_other_guard(ctx):
                 else:
                     dd.add(bad('OTHER-GUARD', inst, 'serde(other) variant not guarded by options.fragments_other_variant: ' + conds_text(v.conds + a.rconds)[:200],
                                loc, 'unknown __typename silently accepted'))
-                # payload-free
-                if v.payload:
+                # payload-free (a payload hole all of whose alternatives are empty is no payload)
+                def live_payload(seq):
+                    for el_ in seq or []:
+                        if el_['t'] == 'choice':
+                            if any(live_payload(sq_) for c_, sq_ in el_['alts']):
+                                return True
+                        else:
+                            return True
+                    return False
+                if live_payload(v.payload):
                     dd.add(bad('OTHER-GUARD', inst + '/unit', 'serde(other) variant has a payload', loc, 'serde rejects a non-unit `other` variant'))
     if n < 1:
         dd.add(bad('OTHER-GUARD', 'floor', 'anchor-missing: no serde(other) production found'))
@@ -1205,7 +1265,22 @@ def rule_box(ctx):
                 continue
             if 'StoredInputType.fields' in fields or 'StoredInputFieldType.id' in fields:
                 roles.add(fnshort + ':input')
-                if 'StoredInputFieldType.qualifiers' not in fields:
+                reads_quals = 'StoredInputFieldType.qualifiers' in fields
+                if not reads_quals:
+                    # the qualifier test may sit in an iterator adaptor of the walk (`.filter(|f| !f.is_indirected())`)
+                    # whose reads the loop summary does not carry: look at the predicate's own functions
+                    try:
+                        from .rules_hir import callgraph
+                        sfn = ctx.site_fn(el['site'] if el is not None and el.get('site') is not None else site)
+                        for k_ in callgraph(ctx).reachable([sfn.key]):
+                            f_ = ctx.fn_by_key(k_)
+                            if f_ is None or f_.from_macro or 'schema::' not in f_.path:
+                                continue
+                            for n_ in f_.walk(lambda x: x['k'] == 'field' and x.get('name') == 'qualifiers' and 'StoredInputFieldType' in x.get('adt', '')):
+                                reads_quals = True
+                    except Exception:
+                        pass
+                if not reads_quals:
                     dd.add(bad('REACH-INPUT', inst, 'input recursion predicate never looks at list qualifiers (is_indirected)', loc,
                                'cycles through lists are boxed needlessly or not at all'))
                 else:
